@@ -628,3 +628,138 @@ Example assign_value_example :
   = tag_ok ++ ser_node (Map [([99], Seq [(RIdx 0, Scalar TInt [53])]);
                ([97], Seq [(RIdx 0, null_node); (RIdx 1, Seq [(RIdx 0, Scalar TInt [53])])])]) ++ [10].
 Proof. split; [reflexivity|split]; vm_compute; reflexivity. Qed.
+
+(* ---------- a multi-match left-hand side: the splat ---------- *)
+(* `.[] = scalar`: every child of the document root receives the value, one after the other, in document order *)
+Definition set_all (n : node) (idxs : list nat) (v : node) : node :=
+  fold_left (fun m i => upd_at m [i] (fun _ => v)) idxs n.
+
+Lemma eval_splat f ro vs c st n : (2 <= f)%nat ->
+  deref st c = Some n -> (match n with Scalar _ _ => False | _ => True end) ->
+  exists g, eval f (EIndex ESelf None) ro vs [c] st = Ok (child_ptrs c n, st ++ g).
+Proof.
+  intros Hf Hd Hn. destruct f as [|f]; [lia|]. cbn [eval]. rewrite andb_false_r.
+  rewrite eval_self by lia. cbn [bind fst snd].
+  destruct f as [|f]; [lia|]. cbn [eval each bind fst snd collect_items]. unfold one, alloc_repl, alloc. cbn [bind fst snd app].
+  set (r1 := replacement_root st c (Seq [])).
+  unfold deref_r.
+  assert (Hd1 : deref (st ++ [r1]) (length st, []) = Some (Seq [])).
+  { unfold deref. cbn [fst snd]. rewrite nth_error_app_len. reflexivity. }
+  rewrite Hd1. cbn [of_option bind List.map each].
+  unfold trav_indices, deref_r. rewrite (deref_app_l _ _ _ _ Hd). cbn [of_option bind].
+  exists [r1]. destruct n as [tg tv|items|es]; [contradiction| |]; cbn [bind fst snd app]; rewrite app_nil_r; reflexivity.
+Qed.
+
+Lemma assign_each_children t v vs c : forall idxs m g f,
+  f <> O ->
+  exists g',
+    each (fun l st1 => results_for_rhs (eval f) false no_short assign_calc (ELit t v) true vs [c] (Some l) st1)
+         (List.map (fun i => (O, [i])) idxs) ([mkRoot None None m] ++ g)
+    = Ok (List.map (fun i => (O, [i])) idxs, [mkRoot None None (set_all m idxs (Scalar t v))] ++ g').
+Proof.
+  induction idxs as [|i idxs IH]; intros m g f Hf.
+  - exists g. reflexivity.
+  - cbn [List.map each]. unfold results_for_rhs at 1, no_short at 1. cbn [bind].
+    rewrite eval_lit by exact Hf. cbn [bind fst snd each].
+    unfold assign_calc at 1, lift2, update_from.
+    assert (Hne : ptr_eqb (O, [i]) (length ([mkRoot None None m] ++ g), []) = false) by reflexivity.
+    rewrite Hne. unfold deref_r.
+    assert (Hdl : deref (([mkRoot None None m] ++ g) ++ [fresh_root (Scalar t v)]) (length ([mkRoot None None m] ++ g), [])
+                  = Some (Scalar t v)).
+    { unfold deref. cbn [fst snd]. rewrite nth_error_app_len. reflexivity. }
+    rewrite Hdl. cbn [of_option bind fst snd app].
+    assert (Hst : update (mkRoot None None m :: g ++ [fresh_root (Scalar t v)]) (O, [i]) (fun _ => Scalar t v)
+                  = [mkRoot None None (upd_at m [i] (fun _ => Scalar t v))] ++ (g ++ [fresh_root (Scalar t v)])) by reflexivity.
+    cbn [app] in Hst |- *. rewrite Hst.
+    destruct (IH (upd_at m [i] (fun _ => Scalar t v)) (g ++ [fresh_root (Scalar t v)]) f Hf) as [g' Hg'].
+    cbn [app] in Hg'. rewrite Hg'. cbn [bind fst snd app].
+    exists g'. reflexivity.
+Qed.
+
+Theorem assign_splat t v doc f :
+  (3 <= f)%nat -> (match doc with Scalar _ _ => False | _ => True end) ->
+  exists st', eval (S f) (EAssign (EIndex ESelf None) (ELit t v)) false [] [(O, [])] (init_store doc) = Ok ([(O, [])], st')
+              /\ deref st' (O, []) = Some (set_all doc (seq 0 (length (children doc))) (Scalar t v)).
+Proof.
+  intros Hf Hn. cbn [eval].
+  assert (Hd0 : deref (init_store doc) (O, []) = Some doc) by reflexivity.
+  destruct (eval_splat f false [] (O, []) (init_store doc) doc ltac:(lia) Hd0 Hn) as [g1 Hg1].
+  match goal with
+  | |- context [eval f (EIndex ESelf None) false ?a ?b ?c] =>
+      replace (eval f (EIndex ESelf None) false a b c) with (@Ok out (child_ptrs (O, []) doc, init_store doc ++ g1))
+        by (symmetry; exact Hg1)
+  end.
+  cbn [bind fst snd].
+  unfold cross. cbn [each]. unfold cross1.
+  assert (Hd1 : deref (init_store doc ++ g1) (O, []) = Some doc) by reflexivity.
+  destruct (eval_splat f true [] (O, []) (init_store doc ++ g1) doc ltac:(lia) Hd1 Hn) as [g2 Hg2].
+  match goal with
+  | |- context [eval f (EIndex ESelf None) true ?a ?b ?c] =>
+      replace (eval f (EIndex ESelf None) true a b c) with (@Ok out (child_ptrs (O, []) doc, (init_store doc ++ g1) ++ g2))
+        by (symmetry; exact Hg2)
+  end.
+  cbn [bind fst snd].
+  assert (Hptrs : child_ptrs (O, []) doc = List.map (fun i => (O, [i])) (seq 0 (length (children doc)))) by reflexivity.
+  rewrite Hptrs.
+  assert (Hst : (init_store doc ++ g1) ++ g2 = [mkRoot None None doc] ++ (g1 ++ g2)) by (rewrite <- app_assoc; reflexivity).
+  rewrite Hst.
+  destruct (assign_each_children t v [] (O, []) (seq 0 (length (children doc))) doc (g1 ++ g2) f ltac:(lia)) as [g' Hg'].
+  destruct (seq 0 (length (children doc))) as [|i0 rest] eqn:Eseq.
+  - cbn [List.map each bind fst snd app]. eexists. split; reflexivity.
+  - rewrite <- Eseq in *.
+    assert (Hnonempty : exists p ps, List.map (fun i => (O, [i])) (seq 0 (length (children doc))) = p :: ps).
+    { rewrite Eseq. cbn. eexists. eexists. reflexivity. }
+    destruct Hnonempty as (p0 & ps0 & Hp0). rewrite Hp0. cbn [bind fst snd]. rewrite <- Hp0.
+    match goal with
+    | |- context [each ?F ?L ?S] => replace (each F L S) with
+        (@Ok out (List.map (fun i => (O, [i])) (seq 0 (length (children doc))),
+                  [mkRoot None None (set_all doc (seq 0 (length (children doc))) (Scalar t v))] ++ g')) by (symmetry; exact Hg')
+    end.
+    cbn [bind fst snd app]. eexists. split; reflexivity.
+Qed.
+
+(* [set_all] over all child positions replaces every child and keeps every key *)
+Definition set_children (n v : node) : node :=
+  match n with
+  | Seq items => Seq (List.map (fun kc => (fst kc, v)) items)
+  | Map es => Map (List.map (fun kc => (fst kc, v)) es)
+  | Scalar _ _ => n
+  end.
+
+Lemma fold_upd_shift {A} (f : A -> A) : forall k a x l,
+  fold_left (fun l0 i => upd_nth l0 i f) (seq (S a) k) (x :: l) = x :: fold_left (fun l0 i => upd_nth l0 i f) (seq a k) l.
+Proof.
+  induction k as [|k IH]; intros a x l; cbn [seq fold_left]; [reflexivity|].
+  cbn [upd_nth]. apply IH.
+Qed.
+
+Lemma fold_upd_all {A} (f : A -> A) : forall l, fold_left (fun l0 i => upd_nth l0 i f) (seq 0 (length l)) l = List.map f l.
+Proof.
+  induction l as [|x l IH]; [reflexivity|].
+  cbn [length seq fold_left upd_nth List.map]. rewrite fold_upd_shift. f_equal. exact IH.
+Qed.
+
+Lemma set_all_children n v : set_all n (seq 0 (length (children n))) v = set_children n v.
+Proof.
+  unfold set_all. destruct n as [t tv|items|es]; cbn [children set_children].
+  - reflexivity.
+  - rewrite map_length.
+    assert (H : forall idxs l, fold_left (fun m i => upd_at m [i] (fun _ => v)) idxs (Seq l)
+                               = Seq (fold_left (fun l0 i => upd_nth l0 i (fun kc => (fst kc, v))) idxs l)).
+    { induction idxs as [|i idxs IH]; intros l; cbn [fold_left]; [reflexivity|]. cbn [upd_at]. apply IH. }
+    rewrite H, fold_upd_all. reflexivity.
+  - rewrite map_length.
+    assert (H : forall idxs l, fold_left (fun m i => upd_at m [i] (fun _ => v)) idxs (Map l)
+                               = Map (fold_left (fun l0 i => upd_nth l0 i (fun kc => (fst kc, v))) idxs l)).
+    { induction idxs as [|i idxs IH]; intros l; cbn [fold_left]; [reflexivity|]. cbn [upd_at]. apply IH. }
+    rewrite H, fold_upd_all. reflexivity.
+Qed.
+
+Theorem assign_splat_sets_children t v doc f :
+  (3 <= f)%nat -> (match doc with Scalar _ _ => False | _ => True end) ->
+  exists st', eval (S f) (EAssign (EIndex ESelf None) (ELit t v)) false [] [(O, [])] (init_store doc) = Ok ([(O, [])], st')
+              /\ deref st' (O, []) = Some (set_children doc (Scalar t v)).
+Proof.
+  intros Hf Hn. destruct (assign_splat t v doc f Hf Hn) as (st' & He & Hd). exists st'. split; [exact He|].
+  rewrite Hd, set_all_children. reflexivity.
+Qed.
